@@ -219,6 +219,9 @@ func (i *input) lex() {
 					Text:      content.String(),
 				})
 			}
+			// The closing quote has been consumed; the next rune may start a
+			// new lexeme.
+			continue
 		default:
 			startLine := i.pos.line
 			var comment bytes.Buffer
@@ -229,27 +232,31 @@ func (i *input) lex() {
 					if i.eof() {
 						return
 					}
-					c := i.readRune()
-					comment.WriteRune(c)
 					if i.lang.NestedComments() && i.match(start) {
 						// Allows nested comments.
 						comment.WriteString(start)
 						nesting++
+						continue
 					}
 					if i.match(end) {
 						if nesting > 0 {
 							comment.WriteString(end)
 							nesting--
-						} else {
-							break
+							continue
 						}
+						break
 					}
+					c := i.readRune()
+					comment.WriteRune(c)
 				}
 				i.comments = append(i.comments, &Comment{
 					StartLine: startLine,
 					EndLine:   i.pos.line,
 					Text:      comment.String(),
 				})
+				// The end delimiter has been consumed; the next rune may start
+				// a new lexeme.
+				continue
 			} else if i.singleLineComment() { // Single line comment
 				for {
 					if i.eof() {
